@@ -65,6 +65,7 @@ def tree_src() -> str:
         sc("F2", [P("U")], "F", [cmp_("X", ">=", 2)]),
         sc("G", [P("X")], "CCSDSPacket", [cmp_("APID_FIELD", "==", 7), cmp_("VERSION", "==", 0, False)]),
         sc("H", [P("X")], "CCSDSPacket", [boolexp]),
+        sc("I", ["BLK", P("X"), "BLK", P("W")], "CCSDSPacket", [cmp_("APID_FIELD", "==", 10)]),
     ]
     return (f'(lambda P: (lambda BLK: XtcePacketDefinition([{", ".join(conts)}], ns={{"xtce": "{X.URI}"}}, xtce_ns_prefix="xtce", '
             f'date="2024-01-01"))(containers.SequenceContainer("BLK", [P["Y"], P["Z"]])))({{p.name: p for p in [{hdr}, {others}]}})')
@@ -101,6 +102,8 @@ def cases():
     add("concrete F: no child", 6, [0], "ok", [("X", 0)])
     add("concrete F: one child", 6, [1, 5], "ok", [("X", 1), ("T", 5)])
     add("concrete F: two children match -> ambiguous", 6, [2, 5], "unrecognized", [("X", 2)])
+    add("container nesting the same container twice: both references expanded, in place", 10, [1, 2, 3, 4, 5, 6], "ok",
+        [("Y", 4), ("Z", 5), ("X", 3), ("W", 6)])
     return c
 
 
@@ -168,6 +171,20 @@ def table(ctx: Ctx):
                    f"{' with partial data ' + str([(k2, int(v)) for k2, v in pd.items()]) if isinstance(pd, dict) else ''}; expected an "
                    f"unrecognized-packet report carrying {items}")
         ctx.decide(bool(ok), "R5.1", site, "", why, where=where(fi, fi.node))
+    # the definition's own root container is where decoding starts when the caller names none
+    site = f"{PARSE}::definition with its own root container"
+    try:
+        d2 = X.load(h, clone_tree(g), "xtce", root_container_name="D")
+        raw = ccsds_bytes(bytes([9, 21, 22, 23]), apid=77)          # decoded from its first bit by container D: X=first byte
+        k, got = h.outcome("d.packet_generator(src)", DEF, d=d2, src=raw)
+        # D: X (8 bits of the header's first byte = 0), no child for X != 9 -> ends; the rest of the packet is unparsed (warning)
+        first = raw[0]
+        want = [("X", first)]
+        ok = k == "ok" and len(got) == 1 and [(k2, int(v)) for k2, v in got[0].items()] == want
+        ctx.decide(ok, "R5.1", site, "", f"a definition loaded with root container D decodes {[(k2, int(v)) for k2, v in got[0].items()] if k == 'ok' and got else got}; "
+                                          f"starting at D gives {want}", where=where(fi, fi.node))
+    except (Unsupported, StepLimit, Raised) as e:
+        ctx.unknown("R5.1", site, str(e))
     # without error reporting the unrecognized packets are skipped silently and the others unaffected
     try:
         stream = b"".join(c[1] for c in cases())
@@ -240,7 +257,7 @@ SPEC = PropSpec(
     pid="C05",
     title="Container inheritance selects the unique matching structure, in order",
     check=check,
-    floors={"R5.1": 17, "R5.5": 2},
+    floors={"R5.1": 19, "R5.5": 2},
     explanation=("Decision table of the descend loop by abstract interpretation: a checker-authored tree (abstract root with "
                  "eight children; an abstract and two concrete second-level containers with 0/1/2 satisfiable children; "
                  "a nested container referenced twice; an unconditional child whose BaseContainer has no "
